@@ -456,7 +456,7 @@ class FitBase(FileIOMixin, object):
             _node.freeze()
 
     def _post_fit_iteration(self, runtime, first_fit=False):
-        if not self._slow_chi2_warning_printed and self._cost_function.is_chi2 and not self._cost_function.fast_math and runtime > 10:
+        if runtime is not None and not self._slow_chi2_warning_printed and self._cost_function.is_chi2 and not self._cost_function.fast_math and runtime > 10:
             warnings.warn("The fit is slow with cost function chi2. Consider using chi2_fast instead (faster but worse numerical stability).")
             self._slow_chi2_warning_printed = True
         for _model_err_name in self._get_node_names_to_freeze(first_fit):
@@ -1134,25 +1134,34 @@ class FitBase(FileIOMixin, object):
 
         # Initial fit:
         self._pre_fit_iteration(first_fit=True)
-        runtime = self._fitter.do_fit()  # TODO specify other node to minimize
-        self._post_fit_iteration(runtime, first_fit=True)
+        runtime = None
+        try:
+            runtime = self._fitter.do_fit()  # TODO specify other node to minimize
+        finally:
+            self._post_fit_iteration(runtime, first_fit=True)  # also after a failed minimization: nothing may stay frozen
 
         if self._iterative_fits_needed():
             _convergence_limit = float(kc("fit", "iterative_do_fit", "convergence_limit"))
             _previous_cost = self.cost_function_value
             for i in range(kc("fit", "iterative_do_fit", "max_iterations")):
                 self._pre_fit_iteration()
-                self._fitter.reset_minimizer()  # flush iminuit cache
-                runtime = self._fitter.do_fit()
-                self._post_fit_iteration(runtime)
+                runtime = None
+                try:
+                    self._fitter.reset_minimizer()  # flush iminuit cache
+                    runtime = self._fitter.do_fit()
+                finally:
+                    self._post_fit_iteration(runtime)
                 if abs(self.cost_function_value - _previous_cost) < _convergence_limit:
                     break
                 _previous_cost = self.cost_function_value
         elif self._second_fit_needed():
             self._pre_fit_iteration()
-            self._fitter.reset_minimizer()  # flush iminuit cache
-            runtime = self._fitter.do_fit()
-            self._post_fit_iteration(runtime)
+            runtime = None
+            try:
+                self._fitter.reset_minimizer()  # flush iminuit cache
+                runtime = self._fitter.do_fit()
+            finally:
+                self._post_fit_iteration(runtime)
 
         self._loaded_result_dict = None
         self._update_parameter_formatters()
